@@ -9,16 +9,17 @@ import (
 
 // Unit is one independently explorable piece of a property check (one scenario x bound).
 type Unit struct {
-	Name   string
-	Sc     *Scenario
-	Bound  int
-	Prune  bool
-	Weight int // rough relative cost, for ordering
+	Name     string
+	Sc       *Scenario
+	Bound    int
+	Prune    bool
+	Weight   int // rough relative cost, for ordering
 	MaxExecs int
-	Shards int // >1: the DFS tree is split at its first level over this many worker processes
-	Env    bool
-	Check  func(x *Exec) []Violation
-	Goal   func(x *Exec) []string
+	NoConfirm bool
+	Shards   int // >1: the DFS tree is split at its first level over this many worker processes
+	Env      bool
+	Check    func(x *Exec) []Violation
+	Goal     func(x *Exec) []string
 	// Required goals must each be witnessed by at least one explored execution (exists-style
 	// clauses; decided by vcheck over all shards of the unit, only when exploration was exhaustive)
 	Required []string
@@ -68,7 +69,7 @@ func RunUnit(u *Unit, shard, nshards int, deadline time.Time, boundOverride int)
 		bound = boundOverride
 	}
 	e := &Explorer{Name: u.Name, Bound: bound, Prune: u.Prune && !u.Sc.UsesFS, Shard: shard, NShards: nshards,
-		Deadline: deadline, Run: u.Sc.Runner(dir), Check: u.Check, Goal: u.Goal, EnvChoices: u.Env}
+		Deadline: deadline, Run: u.Sc.Runner(dir), Check: u.Check, Goal: u.Goal, EnvChoices: u.Env, NoConfirm: u.NoConfirm}
 	e.Explore()
 	res := &UnitResult{Unit: u.Name, Stats: e.Stats, Violations: e.Violations, SigCounts: e.SigCounts(), HarnessErr: e.HarnessErr}
 	for g := range e.Goals {
